@@ -72,8 +72,8 @@ func c01Stream(r *hx.Rand, tier string, n int, w *bufio.Writer) map[string]int {
 	sym := map[string]string{}
 	for _, at := range accessTokens {
 		for _, alg := range []string{"RS256", "RS384", "RS512"} {
-			real, _ := oidc.ClaimHash(at, jose.SignatureAlgorithm(alg))
-			sym[real] = hx.SymHash(hx.HashFamily(alg), at)
+			// reference hash computed with the standard library only (NOT with the library under test)
+			sym[hx.RefClaimHash(at, alg)] = hx.SymHash(hx.HashFamily(alg), at)
 		}
 	}
 	symHash := func(s string) string {
@@ -96,7 +96,7 @@ func c01Stream(r *hx.Rand, tier string, n int, w *bufio.Writer) map[string]int {
 		key := hx.Pick(r, keys[0], keys[0], keys[2], keys[5])
 		alg := key.Algs[0]
 		if key.Kty == "RSA" {
-			alg = hx.Pick(r, "RS256", "RS256", "RS384", "PS256")
+			alg = hx.Pick(r, "RS256", "RS256", "RS384", "PS256", "RS512", "PS384")
 		}
 		// allow-list: mostly one that admits the token's algorithm
 		var algs []string
@@ -140,8 +140,7 @@ func c01Stream(r *hx.Rand, tier string, n int, w *bufio.Writer) map[string]int {
 			claims["acr"] = "gold"
 		}
 		if withAT && r.Chance(70) {
-			h, err := oidc.ClaimHash(at, jose.SignatureAlgorithm(alg))
-			if err == nil {
+			if h := hx.RefClaimHash(at, alg); h != "" {
 				claims["at_hash"] = h
 			}
 		}
@@ -191,9 +190,13 @@ func c01Stream(r *hx.Rand, tier string, n int, w *bufio.Writer) map[string]int {
 					delete(claims, "auth_time")
 				}
 			case 10:
-				other, _ := oidc.ClaimHash(accessTokens[1], jose.SignatureAlgorithm(alg))
-				wrongAlg, _ := oidc.ClaimHash(at, jose.RS512)
-				claims["at_hash"] = hx.Pick(r, other, wrongAlg, "garbage", "")
+				other := hx.RefClaimHash(accessTokens[1], alg)
+				wrongAlg := hx.RefClaimHash(at, "RS512")
+				if hx.HashFamily(alg) == "sha512" {
+					wrongAlg = hx.RefClaimHash(at, "RS256")
+				}
+				// "short": only the first 128 bits of the digest - wrong for SHA-384 / SHA-512
+				claims["at_hash"] = hx.Pick(r, other, wrongAlg, hx.RefClaimHashShort(at, alg), "garbage", "")
 			case 11:
 				key = hx.Pick(r, keys[1], keys[3], keys[6]) // untrusted signer
 				alg = key.Algs[0]
